@@ -3,9 +3,10 @@
 // NonConstantValueInner::to_alias_str_chunk (real text, extracted each run), and the
 // Integer / Boolean arms' format expressions.
 pub fn alias_char(c: char) -> char {
-    (
-//@expr rel=crates/isograph_lang_types/src/declarations/selection_argument.rs fn=to_alias_str_chunk within="impl<TLocation> NonConstantValueInner<TLocation>" start="|c| match c" until=")" serves=C12
-    )(c)
+    let f: fn(char) -> char =
+//@expr rel=crates/isograph_lang_types/src/declarations/selection_argument.rs fn=to_alias_str_chunk within="impl<TLocation> NonConstantValueInner<TLocation>" start=".map(|c|" skip=".map(" until=")" serves=C12
+    ;
+    f(c)
 }
 /// the character(s) contributed to the Rust-side key by one character of a string argument
 pub fn api_alias_char(c: char) -> char { alias_char(c) }
